@@ -29,12 +29,12 @@ type TSModel interface {
 
 // TS is the interprocedural, disjunctive abstract interpreter.
 type TS struct {
-	M      TSModel
-	memo   map[tsKey][]TSConfig
+	M    TSModel
+	memo map[tsKey][]TSConfig
 	// exitsOf: for each summary, the (configuration, return instruction) pairs, used to
 	// correlate a callee's constant boolean result with the branch taken on it by the caller
 	exitsOf map[tsKey][]tsExit
-	active map[tsKey]bool
+	active  map[tsKey]bool
 	// Reached: every (instruction, configuration-before) pair the analysis reached.
 	Reached map[ssa.Instruction]map[TSConfig]bool
 	// Exits: configurations at each return of each analysed function.
